@@ -15,7 +15,7 @@ func init() { register("C17", c17) }
 
 func c17(c *core.Ctx, r *core.Report) {
 	ro := c.Roles()
-	r.Explanation = "C17 values reach fields unchanged (flow clauses only): (R1) on the prefix path the argument of Property.Unmarshall is the very SSA value Binder.Get returned for the property's TagVal; (R2) every text-to-value re-typing step (strconv2.ParseAny) whose result reaches Unmarshall, and (R3) every value-to-text step (strconv2.FormatAny) whose text can flow - field-sensitively through Property.TagVal - into such a ParseAny, is reported keyed by the call-site pair; today's value/prop path (tag text -> ParseAny -> Unmarshall, and Binder.Get -> FormatAny -> TagVal -> ParseAny) is the recorded known finding K1, any other pair is a violation; (R4) Unmarshall decodes its parameter itself with a frozen decoder configuration (weak typing on, yaml tag names, no zeroing, result = the pointer SetValue supplies) and (R5) reflectx.SetValue stores exactly what the setter filled, through a fresh value of the field's type (decision table). Decides where re-typing can happen; conversion results (mapstructure, strconv2) are not decided."
+	r.Explanation = "C17 values reach fields unchanged (flow clauses only): (R1) on the prefix path the argument of Property.Unmarshall is the very SSA value Binder.Get returned for the property's TagVal; (R2) every text-to-value re-typing step (strconv2.ParseAny) whose result reaches Unmarshall, and (R3) every value-to-text step (strconv2.FormatAny) whose text can flow - field-sensitively through Property.TagVal - into such a ParseAny, is reported keyed by the pair of processors whose stages the two sites belong to (whatever helper or callback they sit in); today's value/prop path (tag text -> ParseAny -> Unmarshall, and Binder.Get -> FormatAny -> TagVal -> ParseAny) is the recorded known finding K1, any other pair is a violation; (R4) Unmarshall decodes its parameter itself with a frozen decoder configuration (weak typing on, yaml tag names, no zeroing, result = the pointer SetValue supplies; decode hooks: durations, the timeLayout hook exactly when the argument is present and nothing converting text to time.Time before it) and (R5) reflectx.SetValue stores exactly what the setter filled, through a fresh value of the field's type (decision table). Decides where re-typing can happen; conversion results (mapstructure, strconv2) are not decided."
 	r.Assumptions = []string{"mapstructure converts faithfully for the inputs it is given", "viper returns configured values as written"}
 	prop := c.Named("component_definition", "Property")
 	if prop == nil {
